@@ -21,11 +21,10 @@ type protocolV2 struct{}
 func (protocolV2) Version() uint8 { return 2 }
 
 func (p *protocolV2) UnpackBytes(ctx *protocol.Context, bs []byte) (packet *protocol.Packet, err error) {
-	ctx.BeginUnpack()
-	header := headerFromContext(ctx)
+	// one-shot decoding never shares the header parked in ctx by a streaming decode
+	header := defaultHeaderPool.Get()
 
 	defer func() {
-		ctx.SetHeader(nil)
 		defaultHeaderPool.Put(header)
 	}()
 
@@ -69,8 +68,6 @@ func (p *protocolV2) UnpackBytes(ctx *protocol.Context, bs []byte) (packet *prot
 			return
 		}
 	}
-
-	ctx.EndUnpack()
 
 	return
 }
